@@ -353,7 +353,7 @@ func (p *parser) parseBitTiming() (*BitTiming, error) {
 	}
 
 	t := p.scan()
-	if t.isKeyword(keywordNode) {
+	if t.kind == tokenKeyword || t.isEOF() {
 		p.unscan()
 		return bt, nil
 	} else if !t.isNumber() {
@@ -749,6 +749,10 @@ func (p *parser) parseMessageTransmitter() (*MessageTransmitter, error) {
 	}
 	mt.MessageID = msgID
 
+	if err := p.expectPunct(punctColon); err != nil {
+		return nil, err
+	}
+
 	for {
 		t := p.scan()
 		p.unscan()
@@ -838,7 +842,7 @@ func (p *parser) parseEnvVar() (*EnvVar, error) {
 	}
 	envVar.Max = max
 
-	if err := p.expectPunct(punctLeftSquareBrace); err != nil {
+	if err := p.expectPunct(punctRightSquareBrace); err != nil {
 		return nil, err
 	}
 
@@ -954,15 +958,6 @@ func (p *parser) parseSignalType() (*SignalType, *SignalTypeRef, error) {
 		sigType.TypeName = t.value
 
 		if err := p.expectPunct(punctColon); err != nil {
-			return nil, nil, err
-		}
-
-		t = p.scan()
-		if !t.isNumber() {
-			return nil, nil, p.errorf("expected signal start bit")
-		}
-
-		if err := p.expectPunct(punctPipe); err != nil {
 			return nil, nil, err
 		}
 
@@ -1113,11 +1108,15 @@ func (p *parser) parseSignalType() (*SignalType, *SignalTypeRef, error) {
 		}
 		sigTypeRef.SignalName = sigName
 
+		if err := p.expectPunct(punctColon); err != nil {
+			return nil, nil, err
+		}
+
 		t = p.scan()
 		if !t.isIdent() {
 			return nil, nil, p.errorf("expected signal type name")
 		}
-		sigType.TypeName = t.value
+		sigTypeRef.TypeName = t.value
 
 		if err := p.expectPunct(punctSemicolon); err != nil {
 			return nil, nil, err
@@ -1393,10 +1392,17 @@ func (p *parser) parseAttributeDefault() (*AttributeDefault, error) {
 		} else {
 			invVal, err := p.parseInt(t.value)
 			if err != nil {
-				return nil, p.errorf("cannot parse int attribute default value as int")
+				// the number does not fit an int (or has an exponent): it is a double
+				floatVal, err := p.parseDouble(t.value)
+				if err != nil {
+					return nil, p.errorf("cannot parse int attribute default value as int")
+				}
+				attDef.ValueFloat = floatVal
+				attDef.Type = AttributeDefaultFloat
+			} else {
+				attDef.ValueInt = invVal
+				attDef.Type = AttributeDefaultInt
 			}
-			attDef.ValueInt = invVal
-			attDef.Type = AttributeDefaultInt
 		}
 
 	} else {
@@ -1498,10 +1504,17 @@ func (p *parser) parseAttributeValue() (*AttributeValue, error) {
 		} else {
 			invVal, err := p.parseInt(t.value)
 			if err != nil {
-				return nil, p.errorf("cannot parse int attribute value as int")
+				// the number does not fit an int (or has an exponent): it is a double
+				floatVal, err := p.parseDouble(t.value)
+				if err != nil {
+					return nil, p.errorf("cannot parse int attribute value as int")
+				}
+				attVal.ValueFloat = floatVal
+				attVal.Type = AttributeValueFloat
+			} else {
+				attVal.ValueInt = invVal
+				attVal.Type = AttributeValueInt
 			}
-			attVal.ValueInt = invVal
-			attVal.Type = AttributeValueInt
 		}
 
 	} else {
@@ -1602,6 +1615,7 @@ func (p *parser) parseSignalGroup() (*SignalGroup, error) {
 	for {
 		t = p.scan()
 		if !t.isIdent() {
+			p.unscan()
 			break
 		}
 		sigGroup.SignalNames = append(sigGroup.SignalNames, t.value)
